@@ -878,15 +878,21 @@ func c05sBreadthBound() c05sSmallBound {
 		crits: c05sCrits2(), maglevSel: c05sSelAAB, maglevMaxHosts: 3}
 	if vreport.Thorough() {
 		b.maglevMaxHosts = 4
-		b.bigSels = [][][]string{c05sSelAB, c05sSelAAB}
-		b.shapes = c15ref.Shapes([]string{"a", "b"}, []string{"1", "2"}) // all 9 partial shapes
+		// 7 shapes: no metadata, one key only (a / b), both keys with overlapping values
+		b.shapes = [][]c15ref.Pair{c05sP(), c05sP("a", "1"), c05sP("b", "1"), c05sP("a", "1", "b", "1"), c05sP("a", "1", "b", "2"), c05sP("a", "2", "b", "1"), c05sP("a", "2", "b", "2")}
 		b.maxHosts = 4
-		b.bigShapes = []int{1, 4, 5, 7} // 5 hosts over {a1, a1b1, a1b2, a2b1}
-		b.sels = c15ref.SelectorLists([][]string{{"a"}, {"b"}, {"a", "b"}, {"b", "a"}}, 2)
+		b.bigShapes = []int{1, 3, 4, 5} // 5 hosts over {a1, a1b1, a1b2, a2b1}
+		b.sels = [][][]string{c05sSelA, {{"b"}}, c05sSelAB, {{"b", "a"}}, c05sSelAAB, c05sSelA_B, {{"b"}, {"a", "b"}}}
 		b.fbs = c05sFallbacks(c05sP(), c05sP("a", "1"), c05sP("a", "1", "b", "2"), c05sP("b", "9"))
-		b.fbs = append(b.fbs, c15ref.FallbackAlt{Policy: c15ref.FallbackNone, Default: c05sP("a", "1")}, c15ref.FallbackAlt{Policy: c15ref.FallbackAny, Default: c05sP("a", "1")})
-		b.bigFB = c05sFallbacks(c05sP("a", "1"), c05sP("b", "9"))
-		b.crits = c05sCritList(c15ref.Criteria([]string{"a", "b", "z"}, []string{"1", "2", "9"}, false))
+		b.bigSels = [][][]string{c05sSelAB, c05sSelAAB}
+		b.bigFB = c05sFallbacks(c05sP("a", "1"))[1:]
+		// every assignment a, b in {absent,1,2,9} x z in {absent,1}
+		b.crits = nil
+		for _, cr := range c05sCritList(c15ref.Criteria([]string{"a", "b", "z"}, []string{"1", "2", "9"}, false)) {
+			if n := len(cr); n == 0 || cr[n-1].K != "z" || cr[n-1].V == "1" {
+				b.crits = append(b.crits, cr)
+			}
+		}
 	}
 	return b
 }
